@@ -221,11 +221,16 @@ def gen_argv(rng):
         v = mag * complex(math.cos(math.radians(ph)), math.sin(math.radians(ph)))
         argv.append('--excitation-pulse=%d' % (k + 1))
         argv.append('--excitation-voltage=%s' % ('%r' % v).strip('()'))
-    lk = rng.choice(['none', 'imp', 'imp2', 'rlc', 'trap', 'laplace', 'skin', 'coat'] + (['skin', 'skin', 'coat'] if kind in ('taper', 'helix') else []))
+    lk = rng.choice(['none', 'imp', 'imp2', 'imp3', 'rlc', 'rlc2', 'trap', 'laplace', 'skin', 'coat'] + (['skin', 'skin', 'coat'] if kind in ('taper', 'helix') else []))
     if lk == 'imp':
         argv += ['--load=%g%+gj' % (rng.uniform(1, 100), rng.uniform(-50, 50)), '--attach-load=1,1']
     elif lk == 'imp2':
         argv += ['--load=50', '--attach-load=1,all', '--load=5+3j', '--attach-load=2,2']
+    elif lk == 'imp3':
+        # one load reaching a pulse through several attachments: each attachment is a load line of its own in the BASIC input
+        argv += ['--load=20+30j', '--attach-load=1,all', '--attach-load=1,2', '--load=7', '--attach-load=2,1', '--attach-load=2,1']
+    elif lk == 'rlc2':
+        argv += ['--rlc-load=%g,%g,%g' % (rng.uniform(1, 10), 1e-6, 1e-10), '--attach-load=1,2', '--attach-load=1,2', '--attach-load=1,1']
     elif lk == 'rlc':
         argv += ['--rlc-load=%g,%g,%g' % (rng.uniform(1, 10), 1e-6, 1e-10), '--attach-load=1,1']
     elif lk == 'trap':
